@@ -824,7 +824,7 @@ func persistentBuffer(v ssa.Value, depth int) string {
 func fieldName(a *ssa.FieldAddr) string {
 	if pt, ok := a.X.Type().Underlying().(*types.Pointer); ok {
 		if st, ok := pt.Elem().Underlying().(*types.Struct); ok {
-			return st.Field(a.Field).Name()
+			return fldName(st.Field(a.Field))
 		}
 	}
 	return "?"
